@@ -114,6 +114,11 @@ def generate(seed, tier):
         allow.append("parentok")        # kept verbatim in the token line of discobrackets
     continuous = src_fmt == "brackets"
     k = model.swarm_knobs(rng, tier, allow=allow, continuous=continuous)
+    if src_fmt in ("export", "tigerxml") and rng.random() < 0.3:
+        # tags such as $( on words without any bracket: the bracket writers map them, every
+        # other format carries them as they are
+        k["pos_paren"] = True
+        k["punct"], k["pair"] = max(k["punct"], 0.2), max(k["pair"], 0.15)
     dirmode = rng.random() < 0.2
     nfiles = rng.choice([1, 2, 3, 4]) if dirmode else 1
     tbs = [model.gen_treebank(rng, k) for _ in range(nfiles)]
@@ -349,7 +354,8 @@ def execute(sc, sim):
         real_exit = [0 if ("exc" not in o and o["ok"].get("exit") == 0) else 1
                      for o in robs["sessions"]["s0"]]
         produced = dict((p, d) for p, d in state.items() if p not in files or files[p] != d)
-        if sim_exit != real_exit or produced != robs["files"]:
+        # (after a failed command the files left behind depend on the listing order)
+        if sim_exit != real_exit or (produced != robs["files"] and not any(sim_exit)):
             st.check("real_subprocess_disagreements")
             st.d.setdefault("notes", []).append(
                 "real-subprocess cross-check disagrees: exits sim=%r real=%r, differing files %r"
